@@ -86,6 +86,15 @@ static int do_send(const void *buf, int count, int dest, int tag)
 			memcpy(m->data, buf, (size_t)count);
 			mailbox_version[dest]++;
 			rs_effect();
+			if(getenv("FMPI_DEBUG")) {
+				unsigned fl = 0;
+				double t = 0;
+				if(count > 20) {
+					memcpy(&fl, (const char *)buf + 16, 4);
+					memcpy(&t, (const char *)buf + 8, 8);
+				}
+				rs_logf("[S r%d->r%d sz%d t=%g fl=%x] ", m->src_rank, dest, count, t, fl);
+			}
 			return 0;
 		}
 	rs_engine_error("fake MPI: too many pending messages");
@@ -192,6 +201,8 @@ int MPI_Mrecv(void *buf, int count, MPI_Datatype dt, MPI_Message *msg, MPI_Statu
 	if(count < m->size)
 		rs_fail("MPI_Mrecv: receive buffer (%d) smaller than the message (%d)", count, m->size);
 	memcpy(buf, m->data, (size_t)m->size);
+	if(getenv("FMPI_DEBUG"))
+		rs_logf("[R r%d<-r%d sz%d] ", m->dest, m->src_rank, m->size);
 	free(m->data);
 	m->data = NULL;
 	m->used = 0;
